@@ -4,6 +4,7 @@ import (
 	"fmt"
 	"math"
 	"math/rand"
+	"sort"
 	"strings"
 
 	"github.com/robfig/soy/data"
@@ -62,10 +63,18 @@ func funcLength(v []data.Value) data.Value {
 	return data.Int(len(v[0].(data.List)))
 }
 
+// funcKeys lists the keys in sorted order: the language promises no particular
+// order, but the same data must render the same text every time.
 func funcKeys(v []data.Value) data.Value {
-	var keys data.List
-	for k := range v[0].(data.Map) {
-		keys = append(keys, data.String(k))
+	var m = v[0].(data.Map)
+	var names = make([]string, 0, len(m))
+	for k := range m {
+		names = append(names, k)
+	}
+	sort.Strings(names)
+	var keys = make(data.List, len(names))
+	for i, name := range names {
+		keys[i] = data.String(name)
 	}
 	return keys
 }
